@@ -4,6 +4,7 @@ import (
 	"bytes"
 	"context"
 	"fmt"
+	"net"
 	"sync"
 	"testing"
 	"time"
@@ -36,7 +37,13 @@ type segCase struct {
 	Level string `json:"level"`
 	// Lockstep (level B): request i+1 is only sent after reply i has arrived completely; frame boundaries are always cut
 	Lockstep bool `json:"lockstep"`
+	// Prelude > 0 (level B): before the connection under test, another client connects, sends only the first Prelude
+	// bytes of the first request and disconnects; nothing of it may leak into the connection under test
+	Prelude int `json:"prelude,omitempty"`
 }
+
+// errorUnit: requests with a unit id at or above this are answered by the handler with a typed error
+const errorUnit = 240
 
 const kfParser125 = "fc1-fc2-request-parser-limit-125"
 
@@ -57,7 +64,14 @@ func mkPlan(c segCase) plan {
 		f := spec.EncodeRequest(spec.TCP, r)
 		p.stream = append(p.stream, f...)
 		p.ends = append(p.ends, len(p.stream))
-		rep := dev.Answer(spec.TCP, f)
+		var rep []byte
+		if !(r.Unit >= errorUnit && spec.IsSupported(r.FC) && spec.LegalRequest(r) == nil && !((r.FC == 1 || r.FC == 2) && r.Qty > 125)) {
+			rep = dev.Answer(spec.TCP, f)
+		}
+		if r.Unit >= errorUnit && spec.IsSupported(r.FC) && spec.LegalRequest(r) == nil && !((r.FC == 1 || r.FC == 2) && r.Qty > 125) {
+			// the handler answers this unit with a typed error: the reply is the addressed exception
+			rep = spec.EncodeResponse(spec.TCP, spec.Resp{FC: r.FC, Unit: r.Unit, Tx: r.Tx, IsException: true, Code: srv.ErrorCodeFor(r.Unit)})
+		}
 		if (r.FC == 1 || r.FC == 2) && r.Qty > 125 && harness.OpenFinding(kfParser125) {
 			// listed behaviour of the open finding: the request parser refuses quantities 126..2000 with exception 03
 			rep = spec.EncodeResponse(spec.TCP, spec.Resp{FC: r.FC, Unit: r.Unit, Tx: r.Tx, IsException: true, Code: 3})
@@ -153,7 +167,7 @@ func describe(p plan) string {
 }
 
 func runAssembler(c segCase, p plan, ref []byte) (err error) {
-	h := &srv.Handler{Dev: device.New(c.DevSeed)}
+	h := &srv.Handler{Dev: device.New(c.DevSeed), ErrorFromUnit: errorUnit}
 	asm := &server.ModbusTCPAssembler{Handler: h}
 	var out []byte
 	fed := 0
@@ -185,8 +199,10 @@ func runAssembler(c segCase, p plan, ref []byte) (err error) {
 
 func runServer(c segCase, p plan, ref []byte) error {
 	l := xport.NewPipeListener()
-	h := &srv.Handler{Dev: device.New(c.DevSeed)}
-	s := &server.Server{ReadTimeout: 20 * time.Millisecond, WriteTimeout: 2 * time.Second, OnErrorFunc: func(error) {}}
+	h := &srv.Handler{Dev: device.New(c.DevSeed), ErrorFromUnit: errorUnit}
+	closedConns := make(chan struct{}, 8)
+	s := &server.Server{ReadTimeout: 20 * time.Millisecond, WriteTimeout: 2 * time.Second, OnErrorFunc: func(error) {},
+		OnCloseConnFunc: func(context.Context, net.Addr, bool) { closedConns <- struct{}{} }}
 	ctx, cancel := context.WithCancel(context.Background())
 	var wg sync.WaitGroup
 	wg.Add(1)
@@ -199,6 +215,22 @@ func runServer(c segCase, p plan, ref []byte) error {
 		_ = l.Close()
 		wg.Wait()
 	}()
+	if c.Prelude > 0 && c.Prelude < len(p.stream) {
+		pre, err := l.Dial()
+		if err != nil {
+			return fmt.Errorf("harness: dial: %v", err)
+		}
+		_ = pre.SetWriteDeadline(time.Now().Add(5 * time.Second))
+		if _, err := pre.Write(p.stream[:c.Prelude]); err != nil {
+			return fmt.Errorf("prelude connection: server did not read: %v", err)
+		}
+		_ = pre.Close()
+		// wait until the server has finished with that connection (bounded; continuing early only weakens the case)
+		select {
+		case <-closedConns:
+		case <-time.After(3 * time.Second):
+		}
+	}
 	conn, err := l.Dial()
 	if err != nil {
 		return fmt.Errorf("harness: dial: %v", err)
@@ -294,6 +326,11 @@ func genSeg(t *rapid.T, level string) segCase {
 				r.Qty = rapid.SampledFrom([]uint16{0, 124, 65535}).Draw(t, "bad_qty")
 			}
 		}
+		if rapid.IntRange(0, 5).Draw(t, "handler_error") == 0 {
+			r.Unit = uint8(rapid.IntRange(errorUnit, 255).Draw(t, "error_unit"))
+		} else if r.Unit >= errorUnit {
+			r.Unit -= 100
+		}
 		c.Requests = append(c.Requests, r)
 	}
 	p := mkPlan(segCase{Requests: c.Requests, DevSeed: c.DevSeed})
@@ -323,6 +360,10 @@ func genSeg(t *rapid.T, level string) segCase {
 		for i := 0; i < k && L > 1; i++ {
 			c.Cuts = append(c.Cuts, rapid.IntRange(1, L-1).Draw(t, "cut"))
 		}
+	}
+	if level == "B" && rapid.IntRange(0, 2).Draw(t, "with_prelude") == 0 {
+		first := p.ends[0]
+		c.Prelude = rapid.IntRange(1, first-1).Draw(t, "prelude")
 	}
 	if level == "B" {
 		// the server reads at most 300 bytes per read: keep segments <= 300 so that one write is one read
